@@ -39,6 +39,13 @@ ANCHORS = [
     ("src/easynetwork/lowlevel/api_async/transports/tls.py", "AsyncTLSStreamTransport.send_all"),
     ("src/easynetwork/lowlevel/api_async/transports/tls.py", "AsyncTLSStreamTransport.send_all_from_iterable"),
     ("src/easynetwork/lowlevel/api_async/transports/tls.py", "AsyncTLSStreamTransport._retry_ssl_method"),
+    ("src/easynetwork/lowlevel/api_async/transports/tls.py", "AsyncTLSStreamTransport.__flush_data_to_send"),
+    ("src/easynetwork/lowlevel/api_async/transports/tls.py", "AsyncTLSStreamTransport.__write_all_to_ssl_object"),
+    ("src/easynetwork/lowlevel/api_async/transports/tls.py", "AsyncTLSStreamTransport.__post_init__"),
+    ("src/easynetwork/lowlevel/api_sync/transports/socket.py", "SocketStreamTransport.send_all_from_iterable"),
+    ("src/easynetwork/lowlevel/api_sync/transports/socket.py", "SocketDatagramTransport.send_noblock"),
+    ("src/easynetwork/lowlevel/api_sync/endpoints/stream.py", "StreamEndpoint.send_packet"),
+    ("src/easynetwork/lowlevel/api_sync/endpoints/datagram.py", "DatagramEndpoint.send_packet"),
     ("src/easynetwork/lowlevel/api_async/backend/_asyncio/backend.py", "AsyncIOBackend.create_fair_lock"),
     ("src/easynetwork/lowlevel/api_async/backend/abc.py", "AsyncBackend.create_fair_lock"),
 ]
@@ -56,13 +63,14 @@ TRUSTED = ["hand-written models coq/Conc/FairLock.v, Guard.v, SendSerial.v; the 
 ASSUMPTIONS = ["a transport send is a sequence of atomic partial writes, each followed by a suspension of the sender",
                "tasks call send_packet sequentially (one call in flight per task)"]
 
-KIND_RAW, KIND_CLIENT, KIND_CLIENT_FAIR, KIND_ENDPOINT, KIND_SERVER, KIND_SERVER_FAIR = range(6)
+KIND_RAW, KIND_CLIENT, KIND_CLIENT_FAIR, KIND_ENDPOINT, KIND_SERVER, KIND_SERVER_FAIR, KIND_TLS, KIND_TLS_FAIR, \
+    KIND_THREAD_TCP, KIND_THREAD_UDP = range(10)
 A_START, A_OK, A_FAIL, A_CANCEL, A_TICK, A_SETTLE = range(6)
 # Objects whose lock is the real FairLock are compared with the model after every single loop iteration.  With the
 # asyncio backend's default lock (asyncio.Lock, CPython, which lets a newcomer in when every queued waiter is already
 # cancelled) the comparison is made at quiescence only: the acquisition order is the same, the iteration at which it
 # happens is not.
-TICK_KINDS = (0, 2, 3, 5)
+TICK_KINDS = (0, 2, 3, 5, 7)
 
 _SOCK = None
 
@@ -161,6 +169,69 @@ def _classes():
                 INETSocketAttribute.peername: lambda: ("127.0.0.1", 22222),
             }
 
+    class TlsLower(AsyncStreamTransport):
+        """the transport under AsyncTLSStreamTransport: every send_all is fed to an independent stdlib SSL object (the
+        peer) at once, the plaintext it decrypts is recorded per call; once `gated`, the caller is then suspended"""
+
+        def __init__(self, backend, peer):
+            super().__init__()
+            self._backend = backend
+            self.peer = peer
+            self.inbox = bytearray()
+            self.gates = {}
+            self.gated = False
+            self.closing = False
+            self.calls = []          # plaintext carried by each gated send_all call
+            self.wire = self.calls   # (snapshot uses len(wire))
+
+        async def _gate(self):
+            name = asyncio.current_task().get_name()
+            fut = asyncio.get_running_loop().create_future()
+            self.gates[name] = fut
+            try:
+                await fut
+            finally:
+                if self.gates.get(name) is fut:
+                    del self.gates[name]
+
+        async def send_all(self, data):
+            before = len(self.peer.plain_in)
+            self.peer.feed(bytes(data))
+            self.inbox += self.peer.pump()
+            if self.gated:
+                self.calls.append(bytes(self.peer.plain_in[before:]))
+                await self._gate()
+
+        async def send_eof(self):
+            pass
+
+        async def recv_into(self, buffer):
+            if not self.inbox:
+                await asyncio.get_running_loop().create_future()
+            with memoryview(buffer) as view:
+                n = min(len(view), len(self.inbox))
+                view[:n] = self.inbox[:n]
+            del self.inbox[:n]
+            return n
+
+        async def recv(self, bufsize):
+            buf = bytearray(bufsize)
+            n = await self.recv_into(buf)
+            return bytes(buf[:n])
+
+        async def aclose(self):
+            self.closing = True
+
+        def is_closing(self):
+            return self.closing
+
+        def backend(self):
+            return self._backend
+
+        @property
+        def extra_attributes(self):
+            return {}
+
     class MemBackend(AsyncIOBackend):
         fair = False
         transport = None
@@ -174,6 +245,7 @@ def _classes():
             return super().create_fair_lock()
 
     _CLS.update(PieceSerializer=PieceSerializer, MemTransport=MemTransport, MemBackend=MemBackend, FairLock=FairLock,
+                TlsLower=TlsLower,
                 StreamProtocol=StreamProtocol)
     return _CLS
 
@@ -202,7 +274,7 @@ class Session:
         C = _classes()
         self.loop, self.kind, self.progs = loop, kind, progs
         backend = C["MemBackend"]()
-        backend.fair = kind in (KIND_CLIENT_FAIR, KIND_SERVER_FAIR, KIND_RAW)
+        backend.fair = kind in (KIND_CLIENT_FAIR, KIND_SERVER_FAIR, KIND_RAW, KIND_TLS_FAIR)
         self.transport = tr = C["MemTransport"](backend)
         backend.transport = tr
         protocol = C["StreamProtocol"](C["PieceSerializer"]())
@@ -244,12 +316,23 @@ class Session:
             api = _ConnectedClientAPI(IPv4SocketAddress("127.0.0.1", 22222), inner)
             self._keep.append(api)
             self.send = api.send_packet
+        elif kind in (KIND_TLS, KIND_TLS_FAIR):
+            import tlskit
+            from easynetwork.lowlevel.api_async.transports.tls import AsyncTLSStreamTransport
+
+            peer = tlskit.Peer(tlskit.server_ctx(tlskit.TLS13), True, [])
+            self.transport = lower = C["TlsLower"](backend, peer)
+            tls = loop.run_until_complete(AsyncTLSStreamTransport.wrap(
+                lower, tlskit.client_ctx(tlskit.TLS13), server_side=False, server_hostname="localhost"))
+            lower.gated = True
+            self._keep.append(tls)
+            self.send = tls.send_all
         else:
             raise ValueError(kind)
 
     async def _program(self, prog):
         for pkt in prog:
-            await self.send(tuple(pkt))
+            await self.send(pkt if isinstance(pkt, bytes) else tuple(pkt))
 
     def status(self, t):
         task = self.tasks[t]
@@ -328,7 +411,7 @@ def execute(kind, progs, actions, epilogue=False):
                     for t in busy:
                         s.act([A_OK, t])
                     s.act([A_SETTLE])
-            wire = bytes(s.transport.wire)
+            wire = list(s.transport.calls) if kind in (KIND_TLS, KIND_TLS_FAIR) else bytes(s.transport.wire)
             snaps = s.snaps
         finally:
             s.finish()
@@ -337,8 +420,229 @@ def execute(kind, progs, actions, epilogue=False):
 
 def run_impl(inp):
     kind, progs, actions = inp[0], inp[1], inp[2]
+    if kind in (KIND_THREAD_TCP, KIND_THREAD_UDP):
+        return run_threads(kind, progs, actions)
     snaps, wire = execute(kind, progs, actions)
     return [snaps, wire]
+
+
+# ------------------------------------------------------------------------------------------------ blocking clients, threads
+
+_LISTENER = None
+
+
+def _listener():
+    global _LISTENER
+    if _LISTENER is None:
+        _LISTENER = _socket.socket(_socket.AF_INET, _socket.SOCK_STREAM)
+        _LISTENER.bind(("127.0.0.1", 0))
+        _LISTENER.listen(64)
+    return _LISTENER
+
+
+class ThreadCtl:
+    """gates every socket.send / sendmsg of the client's socket: the calling thread parks (holding the client's send lock)
+    until the script releases it, then the 'kernel' accepts the next scripted number of bytes"""
+
+    WATCHDOG = 20.0
+
+    def __init__(self, sizes):
+        import threading
+
+        self.cv = threading.Condition()
+        self.sizes = sizes              # thread name -> list of byte counts, one per send call
+        self.at_gate = None             # name of the thread parked in send
+        self.released = set()
+        self.gate_log = []              # order in which threads got hold of the socket
+        self.errors = []
+
+    def gate(self, avail):
+        import threading
+
+        name = threading.current_thread().name
+        with self.cv:
+            if self.at_gate is not None:
+                self.errors.append(f"{name} entered send while {self.at_gate} is inside send")
+            self.at_gate = name
+            self.gate_log.append(name)
+            self.cv.notify_all()
+            ok = self.cv.wait_for(lambda: name in self.released, timeout=self.WATCHDOG)
+            self.released.discard(name)
+            self.at_gate = None
+            self.cv.notify_all()
+            if not ok:
+                self.errors.append(f"watchdog: {name} was never released")
+                raise TimeoutError("harness watchdog")
+            k = self.sizes[name].pop(0) if self.sizes.get(name) else avail
+        return max(1, min(k, avail))
+
+
+class GatedSocket(_socket.socket):
+    ctl = None
+
+    def send(self, data, flags=0):
+        with memoryview(data) as view:
+            n = self.ctl.gate(view.nbytes)
+            return super().send(view[:n], flags)
+
+    def sendmsg(self, buffers, *args):
+        data = b"".join(bytes(b) for b in buffers)
+        n = self.ctl.gate(len(data))
+        return super().send(data[:n])
+
+
+def _parse_stream(wire):
+    out, pos = [], 0
+    while pos < len(wire):
+        if not wire[pos] & 0x80 or pos + 3 > len(wire):
+            return None
+        end = pos + 3 + wire[pos + 2]
+        if end > len(wire) or any(b & 0x80 for b in wire[pos + 1:end] if False):
+            return None
+        out.append(bytes(wire[pos:end]))
+        pos = end
+    return out
+
+
+def run_threads(kind, progs, actions, detail=False):
+    """returns [sorted packets received by the peer (or [raw wire] when the stream does not parse), statuses]"""
+    import threading
+
+    from easynetwork.protocol import DatagramProtocol
+    from easynetwork.serializers.abc import AbstractPacketSerializer
+
+    C = _classes()
+    n = len(progs)
+    names = [str(t) for t in range(n)]
+    if kind == KIND_THREAD_TCP:
+        sizes = {names[t]: [len(pc) for pkt in progs[t] for pc in pkt] for t in range(n)}
+    else:
+        sizes = {names[t]: [1 << 20 for _pkt in progs[t]] for t in range(n)}
+    ctl = ThreadCtl(sizes)
+    peer = None
+    if kind == KIND_THREAD_TCP:
+        from easynetwork.clients.tcp import TCPNetworkClient
+
+        sock = GatedSocket(_socket.AF_INET, _socket.SOCK_STREAM)
+        sock.ctl = ctl
+        sock.connect(_listener().getsockname())
+        peer, _ = _listener().accept()
+        client = TCPNetworkClient(sock, C["StreamProtocol"](C["PieceSerializer"]()))
+    else:
+        from easynetwork.clients.udp import UDPNetworkClient
+
+        class JoinSerializer(AbstractPacketSerializer):
+            def serialize(self, packet):
+                return b"".join(packet)
+
+            def deserialize(self, data):
+                return data
+
+        peer = _socket.socket(_socket.AF_INET, _socket.SOCK_DGRAM)
+        peer.bind(("127.0.0.1", 0))
+        sock = GatedSocket(_socket.AF_INET, _socket.SOCK_DGRAM)
+        sock.ctl = ctl
+        sock.bind(("127.0.0.1", 0))
+        sock.connect(peer.getsockname())
+        client = UDPNetworkClient(sock, DatagramProtocol(JoinSerializer()))
+    results = {}
+
+    def body(t):
+        try:
+            for pkt in progs[t]:
+                client.send_packet(tuple(pkt))
+            results[t] = 10
+        except OSError:
+            results[t] = 13
+        except BaseException:
+            results[t] = 14
+
+    threads = {}
+
+    def quiescent():
+        return ctl.at_gate is not None or not any(th.is_alive() for th in threads.values())
+
+    def wait_quiet():
+        with ctl.cv:
+            if not ctl.cv.wait_for(lambda: quiescent() and not ctl.released, timeout=ThreadCtl.WATCHDOG):
+                ctl.errors.append("watchdog: no quiescence")
+
+    def release_one():
+        with ctl.cv:
+            who = ctl.at_gate
+            if who is None:
+                return False
+            ctl.released.add(who)
+            ctl.cv.notify_all()
+            ctl.cv.wait_for(lambda: who not in ctl.released, timeout=ThreadCtl.WATCHDOG)
+        return True
+
+    try:
+        for a in actions:
+            if a[0] == A_START and a[1] not in threads:
+                th = threading.Thread(target=body, args=(a[1],), name=names[a[1]], daemon=True)
+                threads[a[1]] = th
+                th.start()
+                # a finished thread is only seen by polling: is_alive() does not notify the condition
+                for _ in range(2000):
+                    wait_ok = False
+                    with ctl.cv:
+                        wait_ok = ctl.cv.wait_for(quiescent, timeout=0.01)
+                    if wait_ok:
+                        break
+            elif a[0] == A_OK:
+                if release_one():
+                    for _ in range(2000):
+                        with ctl.cv:
+                            if ctl.cv.wait_for(lambda: quiescent() and not ctl.released, timeout=0.01):
+                                break
+        # epilogue: let every send finish
+        for _ in range(10000):
+            with ctl.cv:
+                done = ctl.at_gate is None and not any(th.is_alive() for th in threads.values())
+            if done:
+                break
+            if not release_one():
+                with ctl.cv:
+                    ctl.cv.wait_for(quiescent, timeout=0.01)
+        for th in threads.values():
+            th.join(ThreadCtl.WATCHDOG)
+            if th.is_alive():
+                ctl.errors.append(f"watchdog: thread {th.name} did not finish")
+        if kind == KIND_THREAD_TCP:
+            client.close()
+            peer.settimeout(5.0)
+            wire = bytearray()
+            while True:
+                chunk = peer.recv(65536)
+                if not chunk:
+                    break
+                wire += chunk
+            pk = _parse_stream(wire)
+            packets = sorted(pk) if pk is not None else [bytes(wire)]
+        else:
+            peer.settimeout(0.2)
+            packets = []
+            expected = sum(len(progs[t]) for t in threads)
+            try:
+                while len(packets) < expected:
+                    packets.append(peer.recv(65536))
+            except (TimeoutError, OSError):
+                pass
+            client.close()
+            packets.sort()
+    finally:
+        with ctl.cv:
+            ctl.released.update(names)
+            ctl.cv.notify_all()
+        if peer is not None:
+            peer.close()
+    if ctl.errors:
+        raise RuntimeError("; ".join(ctl.errors))
+    statuses = [results.get(t, 0) if t in threads else 0 for t in range(n)]
+    if detail:
+        return packets, statuses, list(ctl.gate_log)
+    return [packets, statuses]
 
 
 # ------------------------------------------------------------------------------------------------ packets
@@ -377,7 +681,11 @@ def oracle(inp):
     that the script itself cancelled or failed inside the transport), each at most once, per-task order kept, every
     packet of a task that returned is there; with the client lock nobody gets BusyResourceError / another error."""
     kind, progs, actions = inp[0], inp[1], inp[2]
+    if kind in (KIND_THREAD_TCP, KIND_THREAD_UDP):
+        return oracle_threads(kind, progs, actions)
     snaps, wire = execute(kind, progs, actions, epilogue=True)
+    if isinstance(wire, list):      # TLS: plaintext decrypted by the peer, per transport call
+        wire = b"".join(wire)
     final = snaps[-1][1] if snaps else [0] * len(progs)
     for t, st in enumerate(final):
         if st in (1, 2):
@@ -386,7 +694,7 @@ def oracle(inp):
     expected = {}
     for t, prog in enumerate(progs):
         for seq, pkt in enumerate(prog):
-            data = b"".join(pkt)
+            data = pkt if isinstance(pkt, bytes) else b"".join(pkt)
             if data:
                 expected[(data[0] & 0x7F, data[1])] = (t, seq, data)
     pos, seen, lastseq = 0, [], {}
@@ -421,12 +729,26 @@ def oracle(inp):
     for t, prog in enumerate(progs):
         if final[t] == 10:
             for seq, pkt in enumerate(prog):
-                if b"".join(pkt) and (t, seq) not in seen:
+                if (pkt if isinstance(pkt, bytes) else b"".join(pkt)) and (t, seq) not in seen:
                     return f"lost: task {t} returned but its packet {seq} is not on the wire {wire.hex()}"
         if kind != KIND_ENDPOINT and final[t] in (12, 14):
             return f"send failed: task {t} ended with code {final[t]} although every send goes through the client lock"
         if final[t] in (11, 13) and t not in harmed:
             return f"send failed: task {t} ended with code {final[t]} without being cancelled or failed by the script"
+    return None
+
+
+def oracle_threads(kind, progs, actions):
+    """blocking clients: after every send was allowed to finish the peer has received exactly the packets of the started
+    threads, each whole and once (TCP: the stream parses into them), and every send_packet returned"""
+    packets, statuses, _log = run_threads(kind, progs, actions, detail=True)
+    started = sorted({a[1] for a in actions if a[0] == A_START})
+    want = sorted(b"".join(pkt) for t in started for pkt in progs[t])
+    for t in started:
+        if statuses[t] != 10:
+            return f"send failed: thread {t} ended with code {statuses[t]}"
+    if packets != want:
+        return f"interleaved: the peer received {[p.hex() for p in packets]} instead of the packets {[p.hex() for p in want]}"
     return None
 
 
@@ -532,8 +854,19 @@ def _random_script(kind, progs, rng, rounds):
     return acts
 
 
-KIND_NAMES = {KIND_RAW: "fairlock+guard", KIND_CLIENT: "async-tcp-client", KIND_CLIENT_FAIR: "async-tcp-client/fairlock",
+KIND_NAMES = {KIND_TLS: "tls.send_all", KIND_TLS_FAIR: "tls.send_all/fairlock", KIND_THREAD_TCP: "blocking-tcp-client/threads",
+              KIND_THREAD_UDP: "blocking-udp-client/threads", KIND_RAW: "fairlock+guard", KIND_CLIENT: "async-tcp-client", KIND_CLIENT_FAIR: "async-tcp-client/fairlock",
               KIND_ENDPOINT: "endpoint-no-lock", KIND_SERVER: "server-side-client", KIND_SERVER_FAIR: "server-side-client/fairlock"}
+
+
+def _thread_case(kind, progs, acts, tag):
+    started = {a[1] for a in acts if a[0] == A_START}
+    return dict(input=[kind, progs, acts], tags=[KIND_NAMES[kind], tag, f"tasks{len(progs)}"], nontrivial=len(started) >= 2)
+
+
+def mkplain(shape, rng=None):
+    """TLS: one plaintext (a whole framed packet) per send"""
+    return [[mkpacket(t, seq, 1 + (rng.randrange(4) if rng else seq)) for seq in range(k)] for t, k in enumerate(shape)]
 
 
 def _case(kind, progs, acts, tag):
@@ -563,6 +896,25 @@ def cases(tier, rng, escalate):
             progs = mkprogs(shape)
             for acts in _dfs(kind, progs, 7 if thorough else 5, thorough, 2500 if thorough else 200):
                 yield _case(kind, progs, acts, "exhaustive")
+    # TLS transport under concurrent senders
+    for kind in (KIND_TLS, KIND_TLS_FAIR):
+        for shape in ([2, 1], [1, 1, 1]):
+            progs = mkplain(shape)
+            for acts in _dfs(kind, progs, 7 if thorough else 5, True, 1500 if thorough else 160):
+                yield _case(kind, progs, acts, "exhaustive")
+        for _ in range(1500 if thorough else 200):
+            progs = mkplain([rng.choice([1, 1, 2, 3]) for _ in range(rng.choice([2, 3, 3, 4]))], rng)
+            yield _case(kind, progs, _random_script(kind, progs, rng, rng.randrange(3, 14)), "random")
+    # blocking clients with real threads: starts interleaved with releases of whichever thread is inside send
+    for kind, count in ((KIND_THREAD_TCP, 300 if thorough else 60), (KIND_THREAD_UDP, 150 if thorough else 30)):
+        for _ in range(count):
+            ntasks = rng.choice([2, 3, 3, 4])
+            shape = [[rng.choice([1, 1, 2, 3]) for _ in range(rng.choice([1, 1, 2]))] for _ in range(ntasks)]
+            progs = mkprogs(shape, rng)
+            pool = [[A_START, t] for t in range(ntasks) if rng.random() < 0.9]
+            pool += [[A_OK, 0]] * rng.randrange(0, 2 + sum(sum(sh) for sh in shape))
+            rng.shuffle(pool)
+            yield _thread_case(kind, progs, pool, "random")
     # random part
     n_random = 5000 if thorough else 900
     for _ in range(n_random):
